@@ -89,6 +89,7 @@ func (dr *DocumentRef) ValidateWithContext(ctx context.Context) error {
 			validation.Match(cbc.CodePatternRegexp),
 			validation.Required,
 		),
+		validation.Field(&dr.Identities),
 		validation.Field(&dr.Currency),
 		validation.Field(&dr.URL, is.URL),
 		validation.Field(&dr.Stamps),
